@@ -16,9 +16,9 @@ type G struct {
 }
 
 var (
-	tblNames  = []string{"t1", "t2", "users", "Posts", "a", "b", "order_items", "t_3_x"}
-	colNames  = []string{"id", "a", "b", "c", "a_b", "ab", "name", "val", "x_note", "Up_ID", "k", "n"}
-	typeKeys  = []string{"integer", "int", "bigint", "text", "varchar(255)", "real", "boolean", "numeric", "decimal(10,2)", "datetime", "blob", "json", "uuid", "double", "date"}
+	tblNames  = []string{"t1", "t2", "users", "Posts", "a", "b", "order_items", "t_3_x", "order", "group"}
+	colNames  = []string{"id", "a", "b", "c", "a_b", "ab", "name", "val", "x_note", "Up_ID", "k", "n", "key", "from", "index"}
+	typeKeys  = []string{"integer", "int", "bigint", "text", "varchar(255)", "real", "boolean", "numeric", "decimal(10,2)", "datetime", "blob", "json", "uuid", "double", "date", "udt:money", "udt:geo"}
 	strictTys = []string{"integer", "int", "real", "text", "blob"}
 	actions   = []string{"", "NO ACTION", "CASCADE", "SET NULL", "SET DEFAULT", "RESTRICT"}
 )
@@ -152,6 +152,13 @@ func hasStr(l []string, s string) bool {
 
 func (g *G) parts(t *Table, allowExpr bool) []Part {
 	cols := storedCols(t)
+	if allowExpr && g.r.Chance(1, 5) { // an index may also cover a generated column
+		for _, c := range t.Cols {
+			if c.Gen != nil {
+				cols = append(cols, c.Name)
+			}
+		}
+	}
 	n := 1 + g.r.Intn(2)
 	if n > len(cols) {
 		n = len(cols)
@@ -471,6 +478,11 @@ var edits = []edit{
 		for c.Def == nil {
 			c.Def = g.def(c.Type)
 		}
+		t.Cols = append(t.Cols, c)
+		return true
+	}},
+	{"add-col-nonconst-default", func(g *G, s *Schema, t *Table) bool { // must go through the rebuild: ALTER TABLE refuses it on a table with rows
+		c := Col{Name: g.freshCol(t), Type: "integer", Null: g.r.Bool(), Def: &Def{Raw: true, V: g.pick([]string{"random()", "abs(random())", "1 + abs(-3)"})}}
 		t.Cols = append(t.Cols, c)
 		return true
 	}},
